@@ -295,10 +295,11 @@ def observer_kinds(rng, a, rows, cols):
     """`kinds` callback for gridw.gen_world: a mix of observing / ammo agents"""
     if rng.random() < 0.6:
         a["observing"] = True
-        a["view_range"] = rng.choice([0, 1, 1, 2, 3, "FULL", max(rows, cols) + 1])
+        a["view_range"] = rng.choice([0, 1, 1, 2, 3, "FULL", max(rows, cols) + 1]) if max(rows, cols) < 8 else \
+            rng.choice([1, 3, 6, 8, 9, 11, "FULL", max(rows, cols) + 2])              # big worlds: long views too
     if rng.random() < 0.4:
         a["has_ammo"] = True
-        a["init_ammo"] = rng.randint(0, 5)
+        a["init_ammo"] = rng.choice([0, 1, 2, 3, 4, 5, 9, 10, 11, 99, 100, 1000])
     a["blocking"] = rng.random() < 0.35
 
 
